@@ -16,7 +16,9 @@ def _gen_streams(quick_n, thorough_n):
 
 def _stub_streams(quick_n, thorough_n):
     def f(tier):
-        return [("stub", ["-n", str(quick_n if tier == "quick" else thorough_n), "-tier", tier])]
+        return [("stub", ["-n", str(quick_n if tier == "quick" else thorough_n), "-tier", tier]),
+                # flags pass through per call: a `more` call answered to its end, then a plain call on the same connection
+                ("history", ["-n", "8" if tier == "quick" else "32"])]
     return f
 
 
